@@ -21,8 +21,38 @@
 (*        every file / shared memory object that appears while only domain *)
 (*        d creates something lies under d's root path with d's prefix in  *)
 (*        its name, or is a shared memory object named with d's prefix     *)
+(*                                                                         *)
+(* `drv-names resources` runs under the LD_PRELOAD shim (every path is     *)
+(* logged, wherever it is): after every step of domain d - node, the four  *)
+(* messaging patterns, each of the eight port kinds, a dynamic data        *)
+(* segment, a dying process that owns all of it, dead-node cleanup,        *)
+(* orderly shutdown - the paths the step CREATED (open O_CREAT, shm_open   *)
+(* O_CREAT, mkdir, bind of a unix socket, rename target) and REMOVED       *)
+(* (unlink, remove, rmdir, shm_unlink, rename source) are `created` /      *)
+(* `removed` records with their kind (file, dir, shm, socket):             *)
+(*   CreatedUnderDomain   a file or socket lies (lexically resolved) below *)
+(*        d's root and carries d's prefix; a directory is the root, an     *)
+(*        ancestor of it or below it; a shared memory object carries d's   *)
+(*        prefix.  /tmp, the default root, the current directory ... are   *)
+(*        outside.                                                         *)
+(*   RemovedUnderDomain   the same for everything a step of d removes, and *)
+(*        nothing the OTHER domain created is removed                      *)
+(* and the cal-level management functions of every concept of the ipc      *)
+(* service (static storage, dynamic storage, shared memory, resizable      *)
+(* shared memory, zero copy connection, event, monitoring) called with the *)
+(* names of the other domain (`owned` = what each domain created so far):  *)
+(*   ConceptListIsolated    list_cfg under d reports only objects d owns   *)
+(*   ConceptExistsIsolated  does_exist_cfg(name of the other) is false     *)
+(*        unless d owns an object of that name itself                      *)
+(*   ConceptExistsComplete  ... and true if it does                        *)
+(*   ConceptRemoveIsolated  remove_cfg(name of the other) returns false    *)
+(*        (and removes nothing: RemovedUnderDomain)                        *)
+(* Shared memory has no directories (NamedConceptConfiguration::path_hint: *)
+(* "the path will be ignored"): for shared memory objects a domain is its  *)
+(* prefix; two configurations with the SAME prefix and different roots     *)
+(* share them at the cal level.                                            *)
 (***************************************************************************)
-EXTENDS Naturals, Sequences, FiniteSets, TraceIO
+EXTENDS Names, TraceIO
 
 \* NodeClauses = FALSE: the node listing / cleanup clauses are not judged (second pass over a trace
 \* of a configuration pair with a known node-naming ambiguity, so that the service clauses are
@@ -30,13 +60,14 @@ EXTENDS Naturals, Sequences, FiniteSets, TraceIO
 CONSTANT NodeClauses
 
 VARIABLES l, nodes, svcs, dviol, dwhy,
-          dom          \* per domain: root path and prefix as byte sequences
-tvars == <<l, nodes, svcs, dviol, dwhy, dom>>
+          dom,         \* per domain: root path and prefix as byte sequences
+          owned        \* <<d, path>>: what the steps of domain d created and nobody removed yet
+tvars == <<l, nodes, svcs, dviol, dwhy, dom, owned>>
 
 TraceInit == /\ l = 1 /\ nodes = {} /\ svcs = {} /\ dviol = "none" /\ dwhy = <<>> /\ TraceRegInit
              /\ dom = [d \in {0, 1} |-> [root |-> <<>>, prefix |-> <<>>]]
+             /\ owned = {}
 
-HasPrefix(s, p) == Len(s) >= Len(p) /\ \A i \in 1..Len(p) : s[i] = p[i]
 LastSlash(s) == IF \E i \in 1..Len(s) : s[i] = 47 THEN CHOOSE i \in 1..Len(s) : s[i] = 47 /\ \A j \in (i + 1)..Len(s) : s[j] # 47 ELSE 0
 Basename(s) == IF LastSlash(s) = Len(s) THEN <<>> ELSE SubSeq(s, LastSlash(s) + 1, Len(s))
 DevShm == <<47, 100, 101, 118, 47, 115, 104, 109, 47>>      \* "/dev/shm/"
@@ -46,6 +77,29 @@ DevShm == <<47, 100, 101, 118, 47, 115, 104, 109, 47>>      \* "/dev/shm/"
 Belongs(p, d) ==
     \/ HasPrefix(p, dom[d].root \o <<47>>) /\ HasPrefix(Basename(p), dom[d].prefix)
     \/ HasPrefix(p, DevShm \o dom[d].prefix)
+
+\* lexical position of a path relative to a root (components; "." and ".." resolved, Names.tla Resolve)
+IsSeqPrefix(a, b) == Len(a) <= Len(b) /\ \A i \in 1..Len(a) : a[i] = b[i]
+Below(root, p) == LET r == Resolve(root) q == Resolve(p) IN Len(q) > Len(r) /\ IsSeqPrefix(r, q)
+AtOrAround(root, p) == LET r == Resolve(root) q == Resolve(p) IN IsSeqPrefix(r, q) \/ IsSeqPrefix(q, r)
+Absolute(p) == p # <<>> /\ p[1] = 47
+
+\* the judgement of one created / removed path of kind file | socket | dir | shm
+BelongsK(p, kind, d) ==
+    CASE kind = "shm" -> HasPrefix(p, DevShm \o dom[d].prefix)
+      [] kind = "dir" -> Absolute(p) /\ AtOrAround(dom[d].root, p)
+      [] OTHER        -> Absolute(p) /\ Below(dom[d].root, p) /\ HasPrefix(Basename(p), dom[d].prefix)
+
+\* an object at location p counts as d's own: d created it, or it is a shared memory object and the other domain,
+\* which has the same prefix, did
+\* The objects of a concept configured with (dir, prefix, suffix) are named <dir>/<prefix>..<name>..<suffix> (a type
+\* hash may precede the name, a concept may keep several objects per name).  `name` exists for domain d iff d owns
+\* such an object (for shared memory objects: or the other domain does and has the same prefix).
+Contains(s, t) == \E i \in 1..(Len(s) - Len(t) + 1) : SubSeq(s, i, i + Len(t) - 1) = t
+OwnedBy(d, dir, name, suffix, shm) ==
+    \E o \in owned : /\ (o[1] = d \/ (shm /\ dom[0].prefix = dom[1].prefix))
+                     /\ HasPrefix(o[2], dir \o <<47>> \o dom[d].prefix) /\ HasSuffix(o[2], suffix)
+                     /\ Contains(Basename(o[2]), name)
 
 Range(s) == {s[i] : i \in 1..Len(s)}
 Pairs(a, b) == {<<a[i], b[i]>> : i \in 1..Len(a)}
@@ -71,51 +125,78 @@ Consume ==
                 /\ nodes' = {} /\ svcs' = {} /\ dviol' = "none" /\ dwhy' = <<>>
                 /\ dom' = [d \in {0, 1} |-> IF d = 0 THEN [root |-> e.root0b, prefix |-> e.prefix0b]
                                                      ELSE [root |-> e.root1b, prefix |-> e.prefix1b]]
+                /\ owned' = {}
+         [] e.k = "op" /\ e.a = "created" ->
+                /\ Verdict(<<\E i \in 1..Len(e.paths) : ~BelongsK(e.paths[i], e.kinds[i], e.d), "CreatedUnderDomain">>, <<FALSE, "">>, e)
+                /\ owned' = owned \cup {<<e.d, e.paths[i]>> : i \in 1..Len(e.paths)}
+                /\ UNCHANGED <<nodes, svcs, dom>>
+         [] e.k = "op" /\ e.a = "removed" ->
+                /\ Verdict(<<\E i \in 1..Len(e.paths) : ~BelongsK(e.paths[i], e.kinds[i], e.d)
+                                                         \/ (<<1 - e.d, e.paths[i]>> \in owned /\ <<e.d, e.paths[i]>> \notin owned),
+                             "RemovedUnderDomain">>, <<FALSE, "">>, e)
+                /\ owned' = {o \in owned : ~(\E i \in 1..Len(e.paths) : o[2] = e.paths[i])}
+                /\ UNCHANGED <<nodes, svcs, dom>>
+         [] e.k = "op" /\ e.a = "concept_list" ->
+                /\ Verdict(<<e.r # "ok" \/ \E i \in 1..Len(e.names) : ~OwnedBy(e.d, e.dir, e.names[i], e.suffix, e.shm), "ConceptListIsolated">>,
+                           <<FALSE, "">>, e)
+                /\ UNCHANGED <<nodes, svcs, dom, owned>>
+         [] e.k = "op" /\ e.a = "concept_exists" ->
+                /\ Verdict(<<e.r \notin {"true", "false"} \/ (e.r = "true" /\ ~OwnedBy(e.d, e.dir, e.name, e.suffix, e.shm)), "ConceptExistsIsolated">>,
+                           <<e.r = "false" /\ OwnedBy(e.d, e.dir, e.name, e.suffix, e.shm), "ConceptExistsComplete">>, e)
+                /\ UNCHANGED <<nodes, svcs, dom, owned>>
+         [] e.k = "op" /\ e.a = "concept_remove" ->
+                \* only issued for a name that does not exist under this configuration
+                /\ Verdict(<<e.r # "false", "ConceptRemoveIsolated">>, <<FALSE, "">>, e)
+                /\ UNCHANGED <<nodes, svcs, dom, owned>>
+         [] e.k = "op" /\ e.a = "port_step" ->
+                \* creating a port / using it in one domain is not disturbed by the other domain
+                /\ Verdict(<<e.r # "ok", "CreateIsolated">>, <<FALSE, "">>, e)
+                /\ UNCHANGED <<nodes, svcs, dom, owned>>
          [] e.k = "op" /\ e.a = "created_files" ->
                 /\ Verdict(<<\E i \in 1..Len(e.paths) : ~Belongs(e.paths[i], e.d), "CreatedUnderDomain">>, <<FALSE, "">>, e)
-                /\ UNCHANGED <<nodes, svcs, dom>>
+                /\ UNCHANGED <<nodes, svcs, dom, owned>>
          [] e.k = "op" /\ e.a = "create_node" ->
                 /\ nodes' = IF e.r = "ok" THEN nodes \cup {[d |-> e.d, id |-> e.id, st |-> "alive"]} ELSE nodes
                 /\ Verdict(<<e.r # "ok", "CreateIsolated">>, <<FALSE, "">>, e)
-                /\ UNCHANGED <<svcs, dom>>
+                /\ UNCHANGED <<svcs, dom, owned>>
          [] e.k = "op" /\ e.a = "create_service" ->
                 /\ svcs' = IF e.r = "ok" THEN svcs \cup {[d |-> e.d, name |-> e.name, owner |-> e.id]} ELSE svcs
                 /\ Verdict(<<e.r # "ok", "CreateIsolated">>, <<FALSE, "">>, e)
-                /\ UNCHANGED <<nodes, dom>>
+                /\ UNCHANGED <<nodes, dom, owned>>
          [] e.k = "op" /\ e.a = "kill" ->
                 /\ \E n \in nodes : n.d = e.d /\ n.id = e.id
                 /\ nodes' = {IF n.d = e.d /\ n.id = e.id THEN [n EXCEPT !.st = "dead"] ELSE n : n \in nodes}
-                /\ UNCHANGED <<svcs, dviol, dwhy, dom>>
+                /\ UNCHANGED <<svcs, dviol, dwhy, dom, owned>>
          [] e.k = "op" /\ e.a = "drop_node" ->
                 /\ Remove({n \in nodes : n.d = e.d /\ n.id = e.id})
-                /\ UNCHANGED <<dviol, dwhy, dom>>
+                /\ UNCHANGED <<dviol, dwhy, dom, owned>>
          [] e.k = "op" /\ e.a = "drop_service" ->
                 /\ svcs' = {x \in svcs : ~(x.d = e.d /\ x.name = e.name)}
-                /\ UNCHANGED <<nodes, dviol, dwhy, dom>>
+                /\ UNCHANGED <<nodes, dviol, dwhy, dom, owned>>
          [] e.k = "op" /\ e.a = "list_nodes" ->
                 LET own == {<<n.id, n.st>> : n \in NodesOf(e.d)}
                     seen == Pairs(e.ids, e.states) IN
                 /\ Verdict(<<NodeClauses /\ (e.r # "ok" \/ \E p \in seen : ~(\E n \in NodesOf(e.d) : n.id = p[1])), "NodeListIsolated">>,
                            <<NodeClauses /\ seen # own, "NodeListComplete">>, e)
-                /\ UNCHANGED <<nodes, svcs, dom>>
+                /\ UNCHANGED <<nodes, svcs, dom, owned>>
          [] e.k = "op" /\ e.a = "list_services" ->
                 /\ Verdict(<<e.r # "ok" \/ ~(Range(e.names) \subseteq NamesOf(e.d)), "ServiceListIsolated">>,
                            <<~(NamesOf(e.d) \subseteq Range(e.names)), "ServiceListComplete">>, e)
-                /\ UNCHANGED <<nodes, svcs, dom>>
+                /\ UNCHANGED <<nodes, svcs, dom, owned>>
          [] e.k = "op" /\ e.a = "exists" ->
                 /\ Verdict(<<e.r \notin {"true", "false"} \/ (e.r = "true" /\ e.name \notin NamesOf(e.d)), "ExistsIsolated">>,
                            <<e.r = "false" /\ e.name \in NamesOf(e.d), "ExistsComplete">>, e)
-                /\ UNCHANGED <<nodes, svcs, dom>>
+                /\ UNCHANGED <<nodes, svcs, dom, owned>>
          [] e.k = "op" /\ e.a = "open" ->
                 /\ Verdict(<<e.r = "ok" /\ e.name \notin NamesOf(e.d), "OpenIsolated">>,
                            <<e.r # "ok" /\ e.name \in NamesOf(e.d), "ExistsComplete">>, e)
-                /\ UNCHANGED <<nodes, svcs, dom>>
+                /\ UNCHANGED <<nodes, svcs, dom, owned>>
          [] e.k = "op" /\ e.a = "cleanup" ->
                 LET deadn == {n \in NodesOf(e.d) : n.st = "dead"} IN
                 /\ Verdict(<<NodeClauses /\ e.n > Cardinality(deadn), "CleanupIsolated">>,
                            <<NodeClauses /\ (e.n < Cardinality(deadn) \/ e.r # "0"), "CleanupComplete">>, e)
                 /\ Remove(deadn)
-                /\ UNCHANGED dom
+                /\ UNCHANGED <<dom, owned>>
          [] OTHER -> FALSE
 
 TraceNext == Consume
@@ -134,4 +215,9 @@ ServiceListComplete == dviol # "ServiceListComplete"
 ExistsComplete      == dviol # "ExistsComplete"
 CleanupComplete     == dviol # "CleanupComplete"
 CreatedUnderDomain  == dviol # "CreatedUnderDomain"
+RemovedUnderDomain  == dviol # "RemovedUnderDomain"
+ConceptListIsolated   == dviol # "ConceptListIsolated"
+ConceptExistsIsolated == dviol # "ConceptExistsIsolated"
+ConceptExistsComplete == dviol # "ConceptExistsComplete"
+ConceptRemoveIsolated == dviol # "ConceptRemoveIsolated"
 =============================================================================
